@@ -79,7 +79,8 @@ var c10Scenarios = []c10Scenario{
 	{Name: "S4-shared-slices", Files: []string{"repo/.github/workflows/s4a.yml", "repo/.github/workflows/s4b.yml"}, MinFiles: 1},
 	{Name: "S5-broken-callees", Files: []string{"repo/.github/workflows/s5a.yml", "repo/.github/workflows/s5b.yml"}, MinFiles: 2,
 		Once: []string{"could not parse action metadata", "description is required in metadata of \"nodesc\"", "could not read reusable workflow file"}},
-	{Name: "S7-early-stop", Files: []string{"repo/.github/workflows/s7bad.yml", "repo/.github/workflows/s1a.yml", "repo/.github/workflows/s7empty.yml", "repo/.github/workflows/s7seq.yml"}, MinFiles: 2},
+	{Name: "S7-early-stop", Files: []string{"repo/.github/workflows/s7bad.yml", "repo/.github/workflows/s1a.yml", "repo/.github/workflows/s7seq.yml"}, MinFiles: 2},
+	{Name: "S7b-empty", Files: []string{"repo/.github/workflows/s7empty.yml", "repo/.github/workflows/s1b.yml"}, MinFiles: 2},
 	{Name: "S6-format", Files: []string{"repo/.github/workflows/s4a.yml", "repo/.github/workflows/s1b.yml"}, MinFiles: 2, Format: "{{range $ := .}}{{$.Filepath}}:{{$.Line}}:{{$.Column}}:{{$.Kind}}\n{{end}}"},
 }
 
@@ -162,7 +163,7 @@ func TestVerifC10(t *testing.T) {
 	}
 	r.Bounds["preemptions"] = maxPreempt
 	r.Bounds["semaphore_sizes"] = []int{1, 2}
-	r.Extra["rule"] = "7 scenarios (shared local action, caller+callee, sibling/nested repositories, shared-slice messages, broken callees, files that stop early, -format) x every subset and argument order of their files x semaphore size {1,2} x all interleavings of the real LintFiles up to the preemption bound; oracle: per-file diagnostics = LintFile alone, once-per-run defects exactly once, fingerprints of shared tables and configs unchanged at every scheduling point; class = (scenario, file order, per-file diagnostic counts); non-trivial = more than one file with diagnostics"
+	r.Extra["rule"] = "8 scenarios (shared local action, caller+callee, sibling/nested repositories, shared-slice messages, broken callees, files that stop early, -format) x every subset and argument order of their files x semaphore size {1,2} x all interleavings of the real LintFiles up to the preemption bound; oracle: per-file diagnostics = LintFile alone, once-per-run defects exactly once, fingerprints of shared tables and configs unchanged at every scheduling point; class = (scenario, file order, per-file diagnostic counts); non-trivial = more than one file with diagnostics"
 	r.Extra["assumptions"] = []string{"data races are outside a cooperative scheduler's reach (supported by a separate free-running -race pass, not decided here)", "GOMAXPROCS is subsumed by interleavings under data-race freedom"}
 	root := vTempDir(t, "c10-")
 	vWriteFiles(t, root, c10Tree)
